@@ -172,6 +172,14 @@ class CallMixin:
 
     def _minmax(self, node, st, is_max):
         args, kw = self.args_of(node, st)
+        if len(args) == 1 and "key" in kw and isinstance(args[0], VDict) and not getattr(args[0], "empty_literal", False):
+            # max(d, key=...) / min(d, key=...): some key of d (which one is decided by the key function; left abstract)
+            d = args[0]
+            self.oblige(st, "safety", node, d.c > 0, "min/max of an empty dict")
+            k = fresh(d.kty, "argkey")
+            st.assume(z3.Select(d.m, pack(k)))
+            self.assumptions.add("max/min over a dict with key=...: modelled as an arbitrary key of the dict")
+            return k
         if len(args) == 1 and "key" in kw and isinstance(args[0], VList) and isinstance(kw["key"], VFunc) and kw["key"].fn:
             # min(L, key=f): an element of L (the first one) whose key is minimal
             seq = args[0]
